@@ -3,6 +3,7 @@ package mon
 import (
 	"bytes"
 	"fmt"
+	"reflect"
 	"time"
 
 	"github.com/go-i2p/common/certificate"
@@ -676,5 +677,55 @@ func runC14(c *core.Ctx) {
 		}
 		_, err = signature.NewSignatureFromBytes(r.Bytes(wrongLen(r, sl)), st)
 		c14Defect(c, "signature.NewSignatureFromBytes", "signature length does not match its type", gen.Shape{"sigtype": st}, err != nil, "")
+	})
+
+	// ---------------- clause (b) for values obtained from the PARSERS, every kind: whatever a parser
+	// accepts and the value's own Validate() approves serialises to bytes that parse back, with an
+	// empty remainder, to a value with the same serialisation. Inputs: the whole parser workload
+	// (well-formed over the lattice, mutated, corner cases, RouterInfos with peer hashes …).
+	parserCases(c, c.N(40, 800)/c.QScale+1, func(p lib.Parser) bool {
+		return !trivialKind(p.Kind) && p.Kind != "string" && p.Kind != "mapping"
+	}, func(pc pcase) {
+		out, panicked, _, _ := callParser(c, pc.p, pc.in)
+		c.Eval(1)
+		if panicked || !out.Accepted || out.Val == nil {
+			return
+		}
+		v := reflect.ValueOf(out.Val)
+		m := v.MethodByName("Validate")
+		if !m.IsValid() || m.Type().NumIn() != 0 || m.Type().NumOut() != 1 {
+			return
+		}
+		var verr error
+		if p, _, _ := c.Call(pc.p.ID()+"->Validate", pc.in, func() {
+			if e, ok := m.Call(nil)[0].Interface().(error); ok {
+				verr = e
+			}
+		}); p {
+			return
+		}
+		if verr != nil {
+			c.Bucket("parsed-but-invalid/" + pc.p.Kind)
+			return
+		}
+		c.Bucket("parsed-and-valid/" + pc.p.Kind)
+		c.Nontrivial([]byte("parsed-valid"), []byte(pc.p.ID()), pc.in)
+		sh := pc.fullShape()
+		if out.SerErr != nil || len(out.Ser) == 0 {
+			c.Violate(pc.p.Name, "valid-value-does-not-serialise", sh, pc.in, fmt.Sprint(out.SerErr))
+			return
+		}
+		again, p2, _, _ := callParser(c, pc.p, out.Ser)
+		if p2 {
+			return
+		}
+		switch {
+		case !again.Accepted:
+			c.Violate(pc.p.Name, "valid-value-bytes-rejected-by-parser", sh, pc.in, "the serialisation of a parsed value that passes Validate() does not parse: "+firstLineOf(fmt.Sprint(again.Err)))
+		case pc.p.HasRem && len(again.Rem) != 0:
+			c.Violate(pc.p.Name, "valid-value-bytes-leave-a-remainder", sh, pc.in, fmt.Sprintf("%d bytes of the value's own serialisation are left over", len(again.Rem)))
+		case !bytes.Equal(again.Ser, out.Ser):
+			c.Violate(pc.p.Name, "reparsed-value-serialises-differently", sh, pc.in, describeDiff(out.Ser, again.Ser))
+		}
 	})
 }
